@@ -251,3 +251,95 @@ def c05_siblings(tier, rnd):
                      Open(cond=var(n) if n != "x" else pipe(var(n), const(B(True))), sattr=[]), Text("3"), CLOSE]
             progs.append(program(items, al.dom, fam="C05.sib:%s:%s" % (k, n)))
     return progs, pool
+
+
+# ------------------------------------------------------------------ C13 / C12
+FEATURES = ["plain", "omit!", "omitx", "repeat", "define", "ns", "content"]
+
+
+def _oe_level(al, oe, feat, depth, fb):
+    kw = {}
+    tag = "el"
+    if feat == "omit!":
+        kw["omit"] = True
+    elif feat == "omitx":
+        kw["omit"] = al.call("omit", [B(False), B(True)])
+    elif feat == "repeat":
+        kw["rep"] = (False, "y", al.call("repeat", [SEQ([S("a"), S("b")])]))
+    elif feat == "define":
+        kw["define"] = [(False, "x", al.call("define", [S("b"), EXC("KeyError")]))]
+    elif feat == "ns":
+        tag = "ns"
+    if oe:
+        if fb == "const":
+            kw["oe"] = (False, const(S("c")))
+        elif fb == "call":
+            kw["oe"] = (False, al.call("content", [S("h"), NONE, EXC("ValueError")]))
+        elif fb == "struct":
+            kw["oe"] = (True, al.call("content", [S("h")]))
+        elif fb == "err":
+            kw["oe"] = (False, strx(errf("type"), litp(), errf("lineno"), litp(), errf("offset")))
+    return Open(tag=tag, sattr=["class"] if tag == "el" and depth % 2 == 0 else [], **kw)
+
+
+def c13_chains(tier, rnd, excs=("ZeroDivisionError",)):
+    """on-error on any subset of a chain of nested elements (depth <= 3) with
+    omit-tag / repeat / define / tal: elements between, x raising points
+    before and after the inner element on every level"""
+    progs = []
+    levels = [(oe, f) for oe in (0, 1) for f in FEATURES if f != "content"]
+    chains = [(a,) for a in levels] + [(a, b) for a in levels for b in levels]
+    c3 = [(a, b, c) for a in levels for b in levels for c in levels]
+    if tier == "quick":
+        chains = [ch for ch in chains if any(oe for oe, _ in ch)]
+        chains = chains[:12] + rnd.sample(chains[12:], 60)
+        c3 = rnd.sample([ch for ch in c3 if sum(oe for oe, _ in ch) >= 1], 60)
+    else:
+        c3 = [ch for ch in c3 if sum(oe for oe, _ in ch) >= 1]
+    fbs = ["const", "call", "struct", "err"]
+    for n, ch in enumerate(chains + c3):
+        al = Alloc(tier)
+        rdom = [S("a")] + [EXC(c) for c in excs]
+        items = [Text("pre")]
+        for d, (oe, feat) in enumerate(ch):
+            items.append(_oe_level(al, oe, feat, d, fbs[(n + d) % len(fbs)]))
+            items.append(Text("b%d" % d, al.call("content", rdom)))
+        for d in reversed(range(len(ch))):
+            items.append(Text("a%d" % d, al.call("content", rdom)))
+            items.append(CLOSE)
+            items.append(Text("x%d" % d, pipe(var("x"), const(S("u0"))), pipe(var("y"), const(S("u0")))))
+        progs.append(program(items, al.dom, fam="C13.chain:" + "/".join("%s%s" % ("E" if oe else "-", f) for oe, f in ch)))
+    return progs
+
+
+# ------------------------------------------------------------------ C12
+EXC12 = ["KeyError", "ValueError", "ZeroDivisionError", "Custom2", "CustomStr", "RecursionError",
+         "KeyboardInterrupt", "SystemExit"]
+
+
+def c12_raising(tier, rnd):
+    """F1-style programs (multi-line, with a text interpolation) in which every
+    evaluation point may raise exception class c, for every c"""
+    progs = []
+    subsets = [s for r in range(1, len(KINDS) + 1) for s in itertools.combinations(KINDS, r)
+               if not ("content" in s and "replace" in s)]
+    if tier == "quick":
+        subsets = rnd.sample(subsets, 40)
+    for n, sub in enumerate(subsets):
+        classes = EXC12 if tier != "quick" else [EXC12[n % len(EXC12)], EXC12[(n + 3) % len(EXC12)]]
+        for c in classes:
+            al = Alloc("quick")
+            items = [Text("pre\n  ", al.call("content", [S("a")]), "\n")]
+            if "case" in sub:
+                items.append(Open(sw=al.call("switch"), name="section"))
+                items.append(Text("\n   "))
+            items.append(element(al, sub))
+            items.append(Text("t\n", al.call("content", [S("a")]), "é ", al.call("content", [S("a")])))
+            items.append(CLOSE)
+            if "case" in sub:
+                items.append(CLOSE)
+            items.append(Text("post", al.call("content", [S("a")])))
+            for k in al.dom:
+                al.dom[k] = al.dom[k] + [EXC(c)]
+            progs.append(program(items, al.dom, fam="C12:%s:%s" % (c, "+".join(sub))))
+    return progs
